@@ -205,6 +205,13 @@ func genList(r *Rand, n int, thorough bool, emit func(string)) {
 			cnt := r.Range(1, 8)
 			uniform := r.Chance(1, 2)
 			w := r.Range(1, 6)
+			crowd := r.Chance(1, 12)
+			if crowd {
+				// more than 12 files under one key, widths 1-4 mixed, zero-filled and plain numerals
+				// of the same width side by side (sort.Slice is not stable beyond 12 elements)
+				cnt = r.Range(13, 24)
+				uniform = false
+			}
 			for j := 0; j < cnt; j++ {
 				var name string
 				switch r.Intn(12) {
@@ -214,6 +221,9 @@ func genList(r *Rand, n int, thorough bool, emit func(string)) {
 					name = r.Pick([]string{"123", "-0", "foo.-0.exr", "a\nb.1.exr", ".hidden", ".h.1.exr", "readme", "x.#.exr", "1-5", "2x", "a.1.b.2.c"})
 				default:
 					v := r.Range(0, 1200)
+					if crowd {
+						v = r.Range(0, 130) * r.PickInt([]int{1, 1, 1, 10})
+					}
 					if r.Chance(1, 6) {
 						v = -v
 					}
@@ -221,6 +231,9 @@ func genList(r *Rand, n int, thorough bool, emit func(string)) {
 					ww := w
 					if !uniform {
 						ww = r.Range(1, 6)
+					}
+					if crowd {
+						ww = r.Range(1, 4)
 					}
 					if r.Chance(2, 3) {
 						neg := strings.HasPrefix(num, "-")
